@@ -9,9 +9,15 @@
 EXTENDS Naturals, FiniteSets, TLC, Json
 
 \* "borrowed_chain": an untrusted certificate with its own key, followed in the presented chain by
-\* somebody else's trusted (public) certificate for which the peer has no key
-ClientIds == {"trusted", "other_ca", "self_signed", "none", "borrowed_chain_self", "borrowed_chain_other"}
-ServerIds == {"trusted", "other_ca"}
+\* somebody else's trusted (public) certificate for which the peer has no key.
+\* "chain_X_with_caY": an identity *file* (PEM, expressible with the client builder) holding the peer's own
+\* certificate of set X followed by the CA certificate of set Y: extra certificates in one's own identity
+\* never widen what one trusts.
+ClientIds == {"trusted", "other_ca", "self_signed", "none", "borrowed_chain_self", "borrowed_chain_other",
+              "chain_T_with_caO", "chain_O_with_caT"}
+\* a server has a certificate of one set and accepts clients certified by one set (the bundled generator
+\* makes them the same set; an operator need not)
+ServerIds == {"trusted", "other_ca", "cert_O_accepts_T", "cert_T_accepts_O"}
 
 VARIABLES cid, sid,        \* identities presented
           ctrust,          \* the CA the client was configured with: "T" (the one "trusted" refers to) or "O"
@@ -20,13 +26,14 @@ VARIABLES cid, sid,        \* identities presented
 hvars == <<cid, sid, ctrust, state, via>>
 
 HInit == cid \in ClientIds /\ sid \in ServerIds /\ ctrust \in {"T", "O"} /\ state = "start" /\ via \in {"library", "raw"}
-             /\ (cid \in {"none", "borrowed_chain_self", "borrowed_chain_other"} => via = "raw")   \* not expressible with the client builder
+             /\ (cid \in {"none", "borrowed_chain_self", "borrowed_chain_other"} => via = "raw")   \* (the builder wants an identity and the matching key)
 
-\* which CA an identity chains to ("-" = none that anybody trusts); the server is started with the
-\* CA of its own certificate set and so accepts client certificates of that set only
-ServerChainsTo(s_) == IF s_ = "trusted" THEN "T" ELSE "O"
+\* which CA an identity chains to ("-" = none that anybody trusts)
+ServerChainsTo(s_) == IF s_ \in {"trusted", "cert_T_accepts_O"} THEN "T" ELSE "O"
+ServerAccepts(s_) == IF s_ \in {"trusted", "cert_O_accepts_T"} THEN "T" ELSE "O"
 \* (the end-entity certificate decides: "borrowed_chain_other" leads with a certificate of set O)
-ClientChainsTo(c_) == IF c_ = "trusted" THEN "T" ELSE IF c_ \in {"other_ca", "borrowed_chain_other"} THEN "O" ELSE "-"
+ClientChainsTo(c_) == IF c_ \in {"trusted", "chain_T_with_caO"} THEN "T"
+                      ELSE IF c_ \in {"other_ca", "borrowed_chain_other", "chain_O_with_caT"} THEN "O" ELSE "-"
 
 \* the client checks the server's chain against the CA it was configured with
 ServerCertCheck == /\ state = "start"
@@ -34,14 +41,14 @@ ServerCertCheck == /\ state = "start"
                    /\ UNCHANGED <<cid, sid, ctrust, via>>
 \* the server checks the client's chain against the CA it was started with
 ClientCertCheck == /\ state = "server_verified"
-                   /\ state' = IF ClientChainsTo(cid) = ServerChainsTo(sid) THEN "mutually_verified" ELSE "refused"
+                   /\ state' = IF ClientChainsTo(cid) = ServerAccepts(sid) THEN "mutually_verified" ELSE "refused"
                    /\ UNCHANGED <<cid, sid, ctrust, via>>
 Register == /\ state = "mutually_verified" /\ state' = "registered" /\ UNCHANGED <<cid, sid, ctrust, via>>
 
 HNext == ServerCertCheck \/ ClientCertCheck \/ Register
 HSpec == HInit /\ [][HNext]_hvars
 
-MayRegister(c, s_, t) == ServerChainsTo(s_) = t /\ ClientChainsTo(c) = ServerChainsTo(s_)
+MayRegister(c, s_, t) == ServerChainsTo(s_) = t /\ ClientChainsTo(c) = ServerAccepts(s_)
 Inv_NoTrafficUnlessMutuallyVerified == state = "registered" => MayRegister(cid, sid, ctrust)
 EmitCase == state = "start" => PrintT(<<"CASE", ToJson([client |-> cid, server |-> sid, trust |-> ctrust, via |-> via])>>)
 =============================================================================
